@@ -288,6 +288,33 @@ CHECKS = {
         assumptions=["optional fields with IDL defaults (Thrift-Go 'set iff != default' convention), typedef-of-struct/enum uses, binary/container map keys and included typedef chains are excluded by hazard tags (known findings / documented conventions)"],
         design_ref="DESIGN.md §2 C02",
     ),
+    "C03": dict(
+        title="A call through generated client and server code is faithful end to end",
+        legs=[leg("TestBedC03", module="idl", quick=(1500, 4), thorough=(15000, 16), timeout_s=3000, prefixes=["c03.", "bed."], env={"VERIF_BED_PROGRAMS": "6"})],
+        level="exploration",
+        technique="property-based testing (rapid) of generated Go clients, processors, publishers and subscribers for generated IDL programs, driven by reflection over in-memory, TCP, HTTP and NATS transports; oracle = recorded handler invocations and model-derived value trees",
+        rule=("Per shard a batch of 6 generated programs is compiled to Go and linked with stub handlers emitted from the generated interfaces; cases: (service method incl. inherited through extends in the same file or across includes, oneway, void, throws) x "
+              "argument tuples drawn from the model x handler outcome {return value, each declared exception, undeclared error, TApplicationException} x transport {in-memory, TCP adapter + FSimpleServer, HTTP, NATS} x protocol {binary, compact, JSON}; "
+              "scope operations are published and delivered over an in-memory broker. Non-trivial: a non-primitive argument, a throws clause, an inherited method or an outcome other than plain success. Distinct: sha256 of the case."),
+        level_text=("Exploration: the handler registered with the generated processor is invoked exactly once with arguments equal (as wire trees) to what the caller passed; the caller observes exactly the outcome: equal return value, the same declared exception type with equal fields, "
+                    "INTERNAL_ERROR for an undeclared failure, the handler's own type id for an application exception; a successful oneway produces no reply; generated publishers and subscribers agree on the topic and deliver payload and headers exactly once."),
+        level_note="Trusted: the reflection driver (h/genbed/driver), the stub emitter (copies signatures from the generated interfaces), in-process brokers. Only Go is executed.",
+        assumptions=["struct-typed arguments are always populated (nil pointers dereference in generated Write as in Apache Thrift's Go output)"],
+        design_ref="DESIGN.md §2 C03",
+    ),
+    "C16": dict(
+        title="Middleware intercepts every call exactly once, in the declared order",
+        legs=[leg("TestBedC16", module="idl", quick=(1500, 4), thorough=(15000, 16), timeout_s=3000, prefixes=["c16.", "bed."], env={"VERIF_BED_PROGRAMS": "6"})],
+        level="exploration",
+        technique="model-based property testing (rapid) of generated Go code: generated middleware lists at every attachment point, expected nesting trace computed from the lists, rewrites observed at the handler and at the caller",
+        rule=("Middleware lists of length 0..3 (each observing or rewriting) at the provider, the client constructor, the processor constructor and FProcessor.AddMiddleware for every generated two-way method (incl. inherited) over in-memory/TCP/NATS/HTTP, "
+              "and at the scope provider, publisher and subscriber constructors for every generated scope operation. Non-trivial: >=2 middleware at >=2 attachment points with >=1 rewriting. Distinct: sha256 of the case."),
+        level_text=("Exploration: the recorded enter/exit trace must equal the expected nesting (later-listed wraps earlier, provider middleware wraps constructor middleware, AddMiddleware wraps the constructor list), each middleware exactly once; "
+                    "the handler sees the request header and first string argument rewritten by every rewriting layer in enter order; the caller sees the response header and a string result rewritten in exit order."),
+        level_note="Trusted: the driver's middleware constructors and expected-trace computation.",
+        assumptions=["oneway methods are excluded from the trace oracle (the server-side part is not ordered with respect to the caller)"],
+        design_ref="DESIGN.md §2 C16",
+    ),
 }
 
 NOT_APPLICABLE = [
